@@ -24,6 +24,8 @@ type scenario struct {
 	// Part[i] = documented group of pod i: pods with equal ids must share a PodGroup, different ids must not.
 	Part   []int
 	PerPod bool // documented / unit-test-codified "one PodGroup per pod" kind
+	// Required pods are links of their siblings' owner chain (LWS leader): they exist whenever a sibling does.
+	Required map[string]bool
 }
 
 type obj = map[string]interface{}
@@ -337,6 +339,10 @@ func lwsObjects(sc *scenario, n, groups int, f flavour, startup string) {
 		}
 		sc.Pods = append(sc.Pods, leader)
 		sc.Part = append(sc.Part, g)
+		if sc.Required == nil {
+			sc.Required = map[string]bool{}
+		}
+		sc.Required[leader.Name] = true
 		if n > 1 {
 			// the worker StatefulSet of a group is owned by the group's leader pod
 			wsts := mkOwner("apps/v1", "StatefulSet", fmt.Sprintf("lws1-%d", g), lab(0), nil, obj{"replicas": int64(n - 1)}, refToPod(leader))
